@@ -71,6 +71,22 @@ def build(rng, tier):
                     ops.append(f"eng push {inst} r{r}" + "".join(" " + eng.sx_tuple(t) for t in rows)); union[r] = union.get(r, []) + list(rows)
             ops += [f"eng run {inst}", f"eng dump {inst}"]; marks.append(union)
             cases.append(engcheck.Case(pid, inst, ops, {"inp": inp, "marks": marks, "kind": "lattice-history"}))
+    # the README shortest-path shape (non-key lattice index read in the recursive stratum and by a later one): run; run; push an edge; run
+    sp = gen.sp_program()
+    progs["hsp"] = sp; mods.append(("hsp", eng.rs_module("hsp", sp)))
+    for j in range(8 if tier == "quick" else 40):
+        r2 = rng.fork(f"hsp{j}")
+        inp = gen.sp_input(r2)
+        n = 1 + max(max(a, b) for a, b, _ in inp[0])
+        extra = [(a, b, w) for a, b, w in [(r2.below(n), r2.below(n), r2.range(1, 9)) for _ in range(2)] if a != b and not any(x == a and y == b for x, y, _ in inp[0])]
+        inst = f"hsp_{j}"
+        ops = [f"eng new {inst} hsp"] + engcheck.load_ops(inst, inp) + [f"eng run {inst}", f"eng dump {inst}", f"eng run {inst}", f"eng dump {inst}"]
+        marks = ["same"]
+        union = {r: list(v) for r, v in inp.items()}
+        if extra:
+            ops.append(f"eng push {inst} r0" + "".join(" " + eng.sx_tuple(t) for t in extra)); union[0] = union[0] + extra
+        ops += [f"eng run {inst}", f"eng dump {inst}"]; marks.append(union)
+        cases.append(engcheck.Case("hsp", inst, ops, {"inp": inp, "marks": marks, "kind": "shortest-paths-history"}))
     # programs WITH aggregation: the statement's first half (idempotence) is claimed for them too (failed before fix 8b2e261: finding F2)
     for i, p in enumerate(engcheck.make_programs(rng.fork("c13agg"), 8 if tier == "quick" else 30, genf=gen.gen_agg_program, filt=eng.stratifiable)):
         pid = f"ha{i}"
